@@ -8,7 +8,7 @@ compact = subprocess.check_output(["python3", V + "/lib/seedtable.py", "--compac
 open(V + "/seeded/INDEX.md", "w").write("# Seeded changes\n\nOne row per change under `/verif/seeded/<id>-<variant>/` (patch.diff, the demonstration, meta.json, run.log).\n\n" + full)
 metas = [json.load(open(f)) for f in sorted(glob.glob(V + "/seeded/*/meta.json"))]
 n = len(metas)
-missed = [os.path.basename(os.path.dirname(f)) for f in sorted(glob.glob(V + "/seeded/*/meta.json")) if not json.load(open(f)).get("detected")]
+missed = [os.path.basename(os.path.dirname(f)) for f in sorted(glob.glob(V + "/seeded/*/meta.json")) if not json.load(open(f)).get("detected") and not json.load(open(f)).get("excluded")]
 head = """## 10. Seeded changes (`/verif/seeded/<id>-<variant>/`) and which check catches them
 
 Independent sub-agents, given only the property text and a scratch worktree (nothing from /verif),
